@@ -423,6 +423,113 @@ def x6(run: Run, prog: Program):
     run.floor("X6 edge-fill loops", n, 4)
 
 
+def x8(run: Run, prog: Program):
+    """A loop over igraph edges may store at the reversed orientation
+    [target, source] only for undirected networks: every such store lies in a
+    branch that the object's `directed` flag excludes."""
+    from .idioms import inline_locals
+    n = 0
+    for cname in ("Network", "InteractingNetworks"):
+        C = prog.classes.get(cname)
+        if C is None:
+            raise AnalysisError(f"class {cname} vanished")
+        for mname, m in sorted(C.methods.items()):
+            if not m.params:
+                continue
+            sn = m.params[0]
+            loops = [l for l in ast.walk(m.node) if isinstance(l, ast.For)
+                     and re.search(r"\.es\b", ast.unparse(l.iter))
+                     and isinstance(l.target, ast.Name)]
+            if not loops:
+                continue
+            # branch context of every statement: tests that hold on the way to it
+            ctx = {}
+
+            def walk_ctx(stmts, conds):
+                for st in stmts:
+                    ctx[id(st)] = conds
+                    if isinstance(st, ast.If):
+                        # a flag local stands for what it was bound to
+                        t = ast.unparse(inline_locals(m.node, st.test)).replace(" ", "")
+                        walk_ctx(st.body, conds + [("+", t)])
+                        walk_ctx(st.orelse, conds + [("-", t)])
+                    elif isinstance(st, (ast.For, ast.While)):
+                        walk_ctx(st.body, conds)
+                        walk_ctx(st.orelse, conds)
+                    elif isinstance(st, ast.With):
+                        walk_ctx(st.body, conds)
+                    elif isinstance(st, ast.Try):
+                        walk_ctx(st.body, conds)
+                        walk_ctx(st.finalbody, conds)
+            walk_ctx(m.node.body, [])
+            for l in loops:
+                v = l.target.id
+                role = {}         # local name -> "S" | "T"
+                for st in ast.walk(l):
+                    if isinstance(st, ast.Assign) and len(st.targets) == 1:
+                        t, val = st.targets[0], ast.unparse(st.value).replace(" ", "")
+                        if isinstance(t, ast.Tuple) and len(t.elts) == 2 and \
+                                val == f"{v}.tuple" and \
+                                all(isinstance(x, ast.Name) for x in t.elts):
+                            role[t.elts[0].id], role[t.elts[1].id] = "S", "T"
+                        elif isinstance(t, ast.Name) and val in (f"{v}.source",
+                                                                 f"{v}.tuple[0]"):
+                            role[t.id] = "S"
+                        elif isinstance(t, ast.Name) and val in (f"{v}.target",
+                                                                 f"{v}.tuple[1]"):
+                            role[t.id] = "T"
+
+                def end_roles(x):
+                    txt = ast.unparse(x).replace(" ", "")
+                    out = set()
+                    if f"{v}.source" in txt or f"{v}.tuple[0]" in txt:
+                        out.add("S")
+                    if f"{v}.target" in txt or f"{v}.tuple[1]" in txt:
+                        out.add("T")
+                    for nme in ast.walk(x):
+                        if isinstance(nme, ast.Name) and nme.id in role:
+                            out.add(role[nme.id])
+                    return out
+                for st in ast.walk(l):
+                    if not (isinstance(st, ast.Assign) and
+                            isinstance(st.targets[0], ast.Subscript)):
+                        continue
+                    sl = st.targets[0].slice
+                    txt = ast.unparse(sl).replace(" ", "")
+                    if txt == f"{v}.tuple":
+                        pair = ("S", "T")
+                    elif txt == f"{v}.tuple[::-1]":
+                        pair = ("T", "S")
+                    elif isinstance(sl, ast.Tuple) and len(sl.elts) == 2:
+                        a_, b_ = end_roles(sl.elts[0]), end_roles(sl.elts[1])
+                        if len(a_) != 1 or len(b_) != 1:
+                            continue
+                        pair = (next(iter(a_)), next(iter(b_)))
+                    else:
+                        continue
+                    if pair != ("T", "S"):
+                        continue
+                    n += 1
+                    conds = ctx.get(id(st), [])
+                    undirected = any(
+                        (sg == "-" and t in (f"{sn}.directed", f"{sn}.directed==True",
+                                             f"{sn}.directedisTrue")) or
+                        (sg == "+" and t in (f"not{sn}.directed", f"{sn}.directed==False",
+                                             f"{sn}.directedisFalse"))
+                        for sg, t in conds)
+                    run.oblige("X8", f"{m.qualname}@{st.lineno}", undirected, sample={
+                        "where": f"{m.module.relpath}:{st.lineno}",
+                        "store": ast.unparse(st.targets[0])[:60], "context": conds[-2:]})
+                    if not undirected:
+                        run.add("X8", f"{m.qualname}/reverse-store-unguarded",
+                                f"{m.module.relpath}:{st.lineno}",
+                                f"{m.qualname}: `{ast.unparse(st.targets[0])[:70]}` writes a "
+                                f"link at the reversed orientation [target, source] on a "
+                                f"path that directed networks take as well: a link j->i "
+                                f"then appears as i->j in the result")
+    run.floor("X8 reversed-orientation stores in edge loops", n, 2)
+
+
 def x4(run: Run, prog: Program):
     """Sub-block helpers return copies (callers edit them in place)."""
     from .rules_c06 import Purity
@@ -483,6 +590,8 @@ def check(run: Run, prog: Program, cy: CyProgram, sites):
     run.rule("X3", "compiled kernels used by the interacting/coupled network classes "
              "are called with the dtype/rank their signature demands")
     run.rule("X4", "sub-block extraction helpers return copies (fancy indexing)")
+    run.rule("X8", "a loop over igraph edges stores the reversed orientation only for "
+             "undirected networks")
     run.rule("X6", "edge-loop fills store both orientations of an undirected link "
              "independently")
     run.rule("X5", "virtual `self.m()` calls in inherited methods are accepted by the "
@@ -502,6 +611,7 @@ def check(run: Run, prog: Program, cy: CyProgram, sites):
                                            "_nsi_cross_local_clustering"))
     run.floor("X3 call sites", n, 1)
     x4(run, prog)
+    x8(run, prog)
     x6(run, prog)
     run.rule("X7", "results built through igraph's order-normalising subgraph() are "
              "mapped back to the caller's node order")
